@@ -94,3 +94,127 @@ def specs(tier='quick'):
     for mode in (MZ, MR):
         out += [spec_is_minus_prefix(mode), spec_strip_minus_prefix(mode), spec_flatten_expr(mode)]
     return out
+
+
+# ---- SimplifyMapper -----------------------------------------------------------------------------------
+from pyvc.values import SBool, truth, mk_int, SInt, SReal
+from .exprs import ValueContract, comp_lemma, SUMS, QUOTS, POWS, field
+
+FLAGS = ('Flatten', 'IntegerArithmetic', 'FloatingPointArithmetic', 'CollectCoefficients', 'LogicEvaluation')
+
+
+class FlagSet:
+    """model of an enum.Flag value of `Simplification` whose members are symbolic booleans"""
+
+    def __init__(self, bits):
+        self.bits = bits
+
+    def __and__(self, o):
+        return FlagSet({k: z3.And(self.bits[k], o.bits[k]) for k in FLAGS})
+
+    def __or__(self, o):
+        return FlagSet({k: z3.Or(self.bits[k], o.bits[k]) for k in FLAGS})
+
+    def __bool__(self):
+        return ctx().branch(z3.Or([self.bits[k] for k in FLAGS]), 'flag')
+
+
+class _SimplificationModel:
+    pass
+
+
+for _k in FLAGS:
+    setattr(_SimplificationModel, _k, FlagSet({k: z3.BoolVal(k == _k) for k in FLAGS}))
+
+
+class MapperModel:
+    """`self` of SimplifyMapper: enabled flags are arbitrary (every subset is covered by one proof)"""
+
+    def __init__(self, mode):
+        c = ctx()
+        self.enabled_simplifications = FlagSet({k: c.fresh(z3.BoolSort(), 'flag_' + k) for k in FLAGS})
+        self.rec = ValueContract('rec', mode)
+
+
+def mapper_globals(mode):
+    g = dict(G)
+    g['Simplification'] = _SimplificationModel
+    for n in ('flatten_expr', 'sum_literals', 'collect_coefficients', 'mul_literals', 'div_literals'):
+        g[n] = ValueContract(n, mode)
+    return g
+
+
+def mapper_lemmas(mode):
+    names = ('rec', 'flatten_expr', 'sum_literals', 'collect_coefficients', 'mul_literals', 'div_literals')
+    return lemmas_for(mode) + [ValueContract(n, mode).axiom for n in names] + exprs.POW_AXIOMS
+
+
+def mapper_ground(mode):
+    from pyvc.core import ground_instances
+    ax = exprs.PEQ_AXIOMS + exprs.REAL_AXIOMS + exprs.POW_AXIOMS + [
+        ValueContract(n, mode).axiom for n in ('rec', 'flatten_expr', 'sum_literals', 'collect_coefficients',
+                                               'mul_literals', 'div_literals')]
+    return lambda terms: ground_instances(ax, terms)
+
+
+def _nary_spec(method, classes, mode, fold):
+    def setup(spec):
+        c = ctx()
+        e = T.fresh_obj('expr')
+        c.assume(is_any(e.t, classes))
+        c.assume(mode.wf(e.t))
+        return (MapperModel(mode), e), {}, {'expr': e}
+
+    def hook(vc, f, x, cond_t, elt_t, seq, res):
+        comp_lemma('rec-children', seq.t,
+                   lambda L: z3.Implies(mode.wfl(L), z3.And(fold(f(L)) == fold(L), mode.wfl(f(L)))))
+
+    def post(env, r):
+        return [('value', mode.val(T.lift(r)) == mode.val(env['expr'].t)), ('wf', mode.wf(T.lift(r)))]
+    return FunctionSpec(PROP, F, 'SimplifyMapper.' + method, mapper_globals(mode), setup, post,
+                        comp_hooks={1: hook}, variant=mode.m, theory=T, lemmas=mapper_lemmas(mode),
+                        ground=mapper_ground(mode))
+
+
+def spec_map_sum(mode):
+    return _nary_spec('map_sum', ('Sum', 'ParenthesisedAdd'), mode, mode.sumv)
+
+
+def spec_map_product(mode):
+    return _nary_spec('map_product', ('Product', 'ParenthesisedMul'), mode, mode.prodv)
+
+
+def spec_map_quotient(mode):
+    def setup(spec):
+        c = ctx()
+        e = T.fresh_obj('expr')
+        c.assume(is_any(e.t, ('Quotient', 'ParenthesisedDiv')))
+        c.assume(mode.wf(e.t))
+        return (MapperModel(mode), e), {}, {'expr': e}
+
+    def post(env, r):
+        return [('value', mode.val(T.lift(r)) == mode.val(env['expr'].t)), ('wf', mode.wf(T.lift(r)))]
+    return FunctionSpec(PROP, F, 'SimplifyMapper.map_quotient', mapper_globals(mode), setup, post,
+                        variant=mode.m, theory=T, lemmas=mapper_lemmas(mode), ground=mapper_ground(mode))
+
+
+def spec_map_power(mode):
+    def setup(spec):
+        c = ctx()
+        e = T.fresh_obj('expr')
+        c.assume(is_any(e.t, ('Power', 'ParenthesisedPow')))
+        c.assume(mode.wf(e.t))
+        return (MapperModel(mode), e), {}, {'expr': e}
+
+    def post(env, r):
+        return [('value', mode.val(T.lift(r)) == mode.val(env['expr'].t)), ('wf', mode.wf(T.lift(r)))]
+    return FunctionSpec(PROP, F, 'SimplifyMapper.map_power', mapper_globals(mode), setup, post,
+                        variant=mode.m, theory=T, lemmas=mapper_lemmas(mode), ground=mapper_ground(mode))
+
+
+def specs(tier='quick'):       # pylint: disable=function-redefined
+    out = []
+    for mode in (MZ, MR):
+        out += [spec_is_minus_prefix(mode), spec_strip_minus_prefix(mode), spec_flatten_expr(mode),
+                spec_map_sum(mode), spec_map_product(mode), spec_map_quotient(mode), spec_map_power(mode)]
+    return out
